@@ -11,7 +11,7 @@ RULE = ("argument vectors: a date-time in every complete/reduced notation (basic
         "with and without --as-total h/m/s; recurrences in the three notations with --max 0..12 and an optional print format; the four "
         "--calendar modes, --utc, ISODATETIMECALENDAR; malformed text in every positional slot. non-trivial = at least one offset, a "
         "pair, or a recurrence.")
-EXPLANATION = ("oracle: main(argv) is run in-process with captured stdout/SystemExit and compared with the same computation through the "
+EXPLANATION = ("the command-line model (Model/Cli.v: date_parse incl. the two ISO strptime formats, date_shift, date_diff, recurrence expansion) is compared with the real command line; oracle: main(argv) is run in-process with captured stdout/SystemExit and compared with the same computation through the "
                "library API (parse with dump_as_parsed, add the parsed offsets, dump in the same notation; first + printed d == second; "
                "total = seconds/unit; first N recurrence points one per line); malformed arguments must give a non-zero exit with a "
                "message, never a traceback")
@@ -79,22 +79,48 @@ def generate(rng, tier):
 
 
 def model_lines(c):
+    fam = c.meta["fam"]
+    t = c.lines[0].split()
+    if fam == "S":
+        return [c.lines[0]]
+    if fam == "D":
+        return [" ".join(t[:4])]            # the model prints the duration text; --as-total is judged on the implementation
+    if fam == "R" and len(t) == 4:
+        return [c.lines[0]]
     return []
+
+
+def corr(c):
+    """model vs implementation on the command line's own output"""
+    if not c.model:
+        return []
+    m = c.model[0]
+    cli = c.impl[0].split(" ; ", 1)[0].strip()
+    if m == "UNMODELLED":
+        return []
+    fam = c.meta["fam"]
+    if fam == "D" and len(c.lines[0].split()) == 5:
+        return []                             # with --as-total the printed text is a number
+    if m == "EXIT":
+        ok = cli.startswith("EXIT")
+    else:
+        ok = cli == m
+    return [] if ok else [("disagree", "%s: command line %r, model %r" % (c.lines[0], cli, m))]
 
 
 def judge(c):
     out = c.impl[0]
     fam = c.meta["fam"]
-    res = []
+    res = corr(c)
     if out.startswith(("EXC", "HANG")) or " ; " not in out and fam != "M":
-        return [("violation", "%s -> %s (a traceback or hang would reach the user)" % (c.lines[0], out))]
+        return res + [("violation", "%s -> %s (a traceback or hang would reach the user)" % (c.lines[0], out))]
     if fam == "M":
         if out.startswith("EXC") or out == "HANG" or out in ("EXITCODE 2 %00", "EXITCODE 1 %00") or out.startswith("EXITCODE 0"):
             res.append(("violation", "%s -> %s: a malformed argument must give a message and a non-zero exit, not a traceback" % (c.lines[0], out)))
         return res
     cli, lib = [x.strip() for x in out.split(" ; ", 1)]
     if cli.startswith("EXC"):
-        return [("violation", "%s -> %s" % (c.lines[0], cli))]
+        return res + [("violation", "%s -> %s" % (c.lines[0], cli))]
     if fam in ("S", "R"):
         if lib.startswith("ERR"):
             if not cli.startswith("EXIT"):
